@@ -88,9 +88,12 @@ def failMove (hintFirst : Bool) (m : MergeSt) (k : Key) (loc : Loc) (r : Rec) (i
     -- the record is copied; `merge_hintfile_writer.append(..)?` fails
     { m with
       s := if hintFirst then
-             -- order of the day: the entry still points at the input, nothing is counted
+             -- order of the day: the entry still points at the input; the copy nothing points at is counted
+             -- as dead in the output (`stats.entry(*merge_fileid).or_default().add_dead(nbytes)`, commit
+             -- 8c97bf1), so that a later pass selects this file and removes it
              { m.s with
-               disk := { m.s.disk with data := AL.set m.mid (dataOf m.s.disk m.mid ++ [r]) m.s.disk.data } }
+               disk := { m.s.disk with data := AL.set m.mid (dataOf m.s.disk m.mid ++ [r]) m.s.disk.data },
+               stats := updStat m.s.stats m.mid (·.addDead r.len) }
            else
              -- order before commit 924dfa8: the entry is already re-pointed and counted
              { moveSt m k loc r with
